@@ -21,6 +21,16 @@ CLAIMED["C13"] = dict(
     text="Real coroutines (Task, Cancellable<Task>, Future awaitable, coroutine::Futex) on real ThreadPoolExecutor / AlwaysUseNewThreadExecutor running under the simulator; seeded search over interleavings of wake_one/wake_all/cancel/new waiters (cancel and wake released at the same instant a waiter is known suspended), completion vs. registration, completion vs. cancellation; oracles: resume ledger per suspension (exactly once, on the bound executor), wake return values vs. resumed waiters, wake_one/wake_all-missed rules stated in event order, optional empty iff cancel won, DepositBox slot balance (no leaked per-wait bookkeeping), simulated-heap use-after-free detection on coroutine frames. Found three genuine defects (fixed, see known_findings.json).",
     ref="§3 C13", technique="deterministic simulation: seeded schedule search over real coroutines/executors, resume ledger, slot-balance and heap oracles")
 
+CLAIMED["C07"] = dict(
+    text="Real ThreadPoolExecutor (1-3 workers, local queues, work stealing, balance thread), AlwaysUseNewThreadExecutor, InplaceExecutor and a harness executor that refuses drawn submissions, all running under the simulator; external submitters, tasks that spawn tasks (placement local/global predicted through the pool's own rule), plain and coroutine execute/submit, stop() after or while submitters run, destructor instead of stop. Oracles: run-count ledger (exactly once, never after stop returned, never when refused), is_running_in, future ready with the right value at stop()/join return, refused submissions reported (invalid future / non-zero), coroutine frame destroyed exactly once. Found one genuine defect (fixed).",
+    ref="§3 C07", technique="deterministic simulation: seeded schedule search over the real thread pool, run ledger and future-readiness oracle, executor fault injection")
+CLAIMED["C09"] = dict(
+    text="The client protocol the property describes on the real Epoch (readers in thread-local or Accessor regions, nested, handed between threads; writers unlink, tick, poll low_water_mark, reclaim) explored with store buffering always on (lazy commits), which is what exposes a weakened or missing seq_cst fence in lock() although the host is x86; oracle: at the moment low_water_mark reaches a tick no reader still inside the region in which it obtained the unlinked object may hold it; reads of reclaimed objects; released/unlocked accessors must not hold the mark back.",
+    ref="§3 C09", technique="deterministic simulation: seeded schedule + store-buffer (TSO/PSO) delay search, reclamation-safety oracle")
+CLAIMED["C10"] = dict(
+    text="Real GarbageCollector (queue capacity 1-4) with retiring threads, reader threads opening/closing regions after a drawn number of their own steps, and stop()/destructor issued at drawn points including while regions are open, while retire() is blocked on a full queue and while the collector is in its usleep back-off (virtual time); oracle: reclaimer ledger (exactly once, never before the regions open at retire time closed, all run by the time stop() returns). Found one genuine defect (fixed).",
+    ref="§3 C10", technique="deterministic simulation: seeded schedule search with virtual-time back-off, reclaimer ledger oracle")
+
 NOT_APPLICABLE = {
     "C12": "single-threaded value containers: behaviour is a pure function of the operation sequence; nothing in the statement depends on a schedule, clock, I/O or fault, so deciding it would be property-based testing, not simulation (DESIGN.md §4)",
 }
